@@ -31,6 +31,8 @@ def step (toks : List String) : String :=
   | "ising-nd-fixed" :: _ => "same"
   | "prepared-ising" :: _ => "same"
   | "prepared-generic" :: _ => "same"
+  | "big-ising" :: _ => "same"
+  | "big-temper" :: _ => "same"
   | _ => "bad-op"
 
 def main : IO Unit := run step
